@@ -41,7 +41,7 @@ import (
 // ------------------------------------------------------------------ operations (outcome-agnostic)
 
 type Op struct {
-	A    string  `json:"a"`    // Submit | MineListing | MineForeign | Reorg | Tick | Expire | SaveLoad | Observe
+	A    string  `json:"a"`    // Submit | MineListing | MineForeign | MineRejected | Reorg | Tick | Expire | SaveLoad | Observe
 	T    int     `json:"t"`    // Submit: transaction
 	Mode string  `json:"mode"` // Submit: net | trusted | local
 	K    int     `json:"k"`    // MineListing: number of listing entries to mine (< 0: all)
@@ -709,9 +709,42 @@ func (r *runner) runOp(op *Op) {
 		}
 		b := r.newBlock(par, ids, 50e8+fees)
 		r.deliver(b, "listing")
-	case "MineForeign":
+	case "MineForeign", "MineRejected":
+		cands := op.Txs
+		if op.A == "MineRejected" {
+			// somebody mined what this node refused: every transaction the reject cache still holds with its
+			// data (refused replacements, replaced ones, waiting orphans) that is valid on the chain, plus op.Txs
+			cands = append([]int{}, op.Txs...)
+			txpool.TxMutex.Lock()
+			for _, tr := range txpool.TransactionsRejected {
+				if tr.Tx != nil {
+					if id := r.id(tr.Id.Hash); id > 0 {
+						cands = append(cands, id)
+					}
+				}
+			}
+			// ... together with their pooled ancestors, so that the block is valid
+			seen := map[int]bool{}
+			var anc func(t int)
+			anc = func(t int) {
+				for _, in := range r.w.Sc.Tx[t].Ins {
+					if tx := r.w.Tx(in.Tx); tx != nil && in.Tx > r.w.Sc.BaseH && !seen[in.Tx] {
+						if _, pooled := txpool.TransactionsToSend[tx.Hash.BIdx()]; pooled {
+							seen[in.Tx] = true
+							cands = append(cands, in.Tx)
+							anc(in.Tx)
+						}
+					}
+				}
+			}
+			for _, t := range append([]int{}, cands...) {
+				anc(t)
+			}
+			txpool.TxMutex.Unlock()
+			sort.Ints(cands) // parents have smaller ids
+		}
 		_, _, h := r.tip()
-		sel := r.selectValid(op.Txs, r.confirmed(len(r.active)), h+1)
+		sel := r.selectValid(cands, r.confirmed(len(r.active)), h+1)
 		par := 0
 		if len(r.active) > 0 {
 			par = r.active[len(r.active)-1]
@@ -866,22 +899,22 @@ type mOut struct {
 	Amt conc.Amt `json:"amt"`
 }
 type mTx struct {
-	Id    int    `json:"id"`
 	Ins   []mIn  `json:"ins"`
 	Outs  []mOut `json:"outs"`
 	Vsize int    `json:"vsize"`
 }
 
+// writeModelScenario: the universe as TraceMempool.tla reads it (a table keyed by id: see the note there)
 func writeModelScenario(w *conc.World, path string) error {
 	var ids []int
 	for id := range w.Sc.Tx {
 		ids = append(ids, id)
 	}
 	sort.Ints(ids)
-	txs := []mTx{}
+	txs := map[string]mTx{}
 	for _, id := range ids {
 		d := w.Sc.Tx[id]
-		m := mTx{Id: id, Ins: []mIn{}, Outs: []mOut{}}
+		m := mTx{Ins: []mIn{}, Outs: []mOut{}}
 		for _, in := range d.Ins {
 			m.Ins = append(m.Ins, mIn{in.Tx, in.Vout, in.Ok})
 		}
@@ -889,9 +922,9 @@ func writeModelScenario(w *conc.World, path string) error {
 			m.Outs = append(m.Outs, mOut{o.Amt})
 		}
 		_, m.Vsize = refWeight(w.Tx(id).Raw)
-		txs = append(txs, m)
+		txs[fmt.Sprint(id)] = m
 	}
-	b, _ := json.Marshal(map[string]interface{}{"baseh": w.Sc.BaseH, "txs": txs})
+	b, _ := json.Marshal(map[string]interface{}{"baseh": w.Sc.BaseH, "ids": ids, "tx": txs})
 	return os.WriteFile(path, b, 0660)
 }
 
